@@ -311,3 +311,92 @@ def result_switch_fate(body, bb, term):
         if bl['term']['k'] not in ('goto', 'drop'):
             return 'matched'
     return 'swallowed:ignored-Err-arm'
+
+
+def stream_loop(body):
+    """(blocks polling a child Stream, blocks entered with `Some(item)`) of the `#[for_await]` loops in a coroutine body"""
+    polls = [c.bb for c in body.calls if (c.fn or '').endswith('Stream::poll_next')]
+    some_targets = []
+    for bl in body.blocks:
+        t = bl['term']
+        if t['k'] == 'switch' and t.get('adt') == 'std::option::Option' and t.get('on') and \
+                any(p.startswith('as:Ready') for p in t['on']['p']):
+            for v, tgt in t['targets']:
+                if t.get('variants', {}).get(v) == 'Some':
+                    some_targets.append(tgt)
+    return polls, some_targets
+
+
+def int_counters(body, ty='usize'):
+    """{local: (blocks where it is advanced, locals of the Add results)} for locals initialised to the constant 0 and re-assigned
+    from an Add of that type"""
+    zero_init = {st['lhs']['l'] for _, st in body.stmts() if st['s'] == 'assign' and not st['lhs']['p']
+                 and st.get('rv', {}).get('rv') == 'use' and st['rv']['op']['k'] == 'const'
+                 and st['rv']['op'].get('v', '').replace('const ', '') == '0_' + ty}
+    adds = {}
+    for bb, st in body.stmts():
+        rv = st.get('rv', {}) if st['s'] == 'assign' else {}
+        if rv.get('rv') == 'binop' and rv['op'].startswith('Add') and rv['ty'] == ty:
+            adds[st['lhs']['l']] = bb
+    upd = {}
+    for bb, st in body.stmts():
+        rv = st.get('rv', {}) if st['s'] == 'assign' else {}
+        if not st['lhs']['p'] and st['lhs']['l'] in zero_init and rv.get('rv') == 'use' and rv['op']['k'] != 'const' \
+                and rv['op']['pl']['l'] in adds:
+            blocks, srcs = upd.setdefault(st['lhs']['l'], ([], []))
+            blocks.append(bb)
+            srcs.append(rv['op']['pl']['l'])
+    return upd
+
+
+def lost_witnesses(body):
+    """existence accumulators: bool locals initialised to `false` before a loop and assigned again inside it. Returns
+    [(local, init blocks, assignment block)] for every non-accumulating assignment A (`e = x`, not `e |= x`) that is dominated by an
+    init and can be reached again from itself without passing an init while `e` may still be true (at a branch on `e` only the true arm
+    is followed): a match that was seen can be overwritten by a later round."""
+    out = []
+    for l, ty in enumerate(body.rec['locals']):
+        if ty != 'bool':
+            continue
+        defs = local_defs(body, l)
+        if len(defs) < 2:
+            continue
+        inits = [bb for bb, k, p in defs if k == 'assign' and p.get('rv') == 'use' and p['op']['k'] == 'const' and 'false' in p['op'].get('v', '')]
+        if not inits:
+            continue
+        sws = {}
+        for i, bl in enumerate(body.blocks):
+            t = bl['term']
+            if t['k'] != 'switch' or t['discr']['k'] == 'const':
+                continue
+            d = t['discr']['pl']['l']
+            on_e = d == l and not t['discr']['pl']['p']
+            for st in bl['stmts']:
+                if st['s'] == 'assign' and st['lhs']['l'] == d and not st['lhs']['p'] and st['rv'].get('rv') == 'use' \
+                        and st['rv']['op']['k'] != 'const' and st['rv']['op']['pl']['l'] == l and not st['rv']['op']['pl']['p']:
+                    on_e = True
+            if on_e:
+                sws[i] = [tgt for v, tgt in t['targets'] if v == '0']
+        for bb, k, p in defs:
+            if k == 'assign' and p.get('rv') == 'use' and p['op']['k'] == 'const':
+                continue
+            if k == 'assign' and p.get('rv') == 'binop' and p['op'].startswith('BitOr') and any(pl['l'] == l for pl in operand_places(p)):
+                continue
+            if not body.dominated_by_any(set(inits), bb):
+                continue
+            start = [n for n in body.succs[bb] if not (bb in sws and n in sws[bb])]
+            seen, todo, hit = set(), start, False
+            while todo:
+                x = todo.pop()
+                if x in seen or x in inits or body.blocks[x]['cleanup']:
+                    continue
+                seen.add(x)
+                if x == bb:
+                    hit = True
+                    break
+                nxt = body.succs[x]
+                if x in sws:
+                    nxt = [n for n in nxt if n not in sws[x]]
+                todo += nxt
+            out.append((l, inits, bb, hit))
+    return out
